@@ -7,7 +7,7 @@ use core::ops::{
 };
 
 /// HighwayHash powered by Neon instructions
-#[derive(Debug, Default, Clone)]
+#[derive(Debug, Clone)]
 pub struct NeonHash {
     buffer: HashPacket,
     v0L: V2x64U,
@@ -18,6 +18,12 @@ pub struct NeonHash {
     mul0H: V2x64U,
     mul1L: V2x64U,
     mul1H: V2x64U,
+}
+
+impl Default for NeonHash {
+    fn default() -> Self {
+        unsafe { NeonHash::force_new(Key::default()) }
+    }
 }
 
 impl HighwayHash for NeonHash {
